@@ -12,7 +12,7 @@ RULE = ('one run = 1-5 tagged requests on one client connection through the forw
         'matched to its request (tag) and to the origin or route the request names; non-trivial = at least two '
         'requests on the connection; distinct = distinct event-log digests')
 PROBES = ['forward', 'web', 'reverse', 'sequential', 'pipelined', 'coalesced', 'split',
-          'different_origin', 'different_route', 'with_body']
+          'different_origin', 'different_route', 'with_body', 'explicit_keep_alive']
 COMPONENTS = {
     'real': ['proxy/http/handler.py', 'proxy/http/proxy/server.py', 'proxy/http/server/web.py',
              'proxy/http/server/reverse.py', 'proxy/core/base/tcp_upstream.py', 'proxy/http/parser/*',
@@ -95,6 +95,11 @@ def run_one(tape: Any, cfg: Dict[str, Any], forbid: FrozenSet[str] = frozenset()
                 target = b'/rp%d/y%d' % (t, i)
                 host = b'localhost'
             r = method + b' ' + target + b' HTTP/1.1\r\nHost: ' + host + b'\r\nX-Req-Tag: ' + tag + b'\r\n'
+            # an explicit keep-alive token in the spellings clients use says the same as no Connection header at all
+            ck = tape.weighted([4, 1, 1, 1], 'connhdr')
+            if ck:
+                r += [b'Connection: keep-alive\r\n', b'Connection: Keep-Alive\r\n', b'connection: KEEP-ALIVE\r\n'][ck - 1]
+                w.probe('explicit_keep_alive')
             if with_body:
                 r += b'Content-Length: %d\r\n' % len(body)
             r += b'\r\n' + body
